@@ -34,6 +34,8 @@ var fwdNames = []string{"Forwarded", "X-Forwarded-For", "X-Forwarded-Proto", "X-
 type fwd struct {
 	Name   string
 	Values []string
+	// Sibling: not one of the headers heimdall documents (see siblingHeaders)
+	Sibling bool
 }
 
 type scenario struct {
@@ -47,6 +49,14 @@ type scenario struct {
 	Forwards []fwd
 	Entry    vkit.Entry
 }
+
+// relatives of the forwarded headers which other software knows: heimdall documents none of them, so nobody - trusted or
+// not - changes the request by sending them
+var siblingHeaders = []vkit.HeaderKV{{Name: "X-Forwarded-Scheme", Value: "https"}, {Name: "X-Forwarded-Scheme", Value: "http"}, {Name: "X-Forwarded-Protocol", Value: "https"},
+	{Name: "X-Forwarded-Ssl", Value: "on"}, {Name: "X-Url-Scheme", Value: "https"}, {Name: "Front-End-Https", Value: "on"}, {Name: "X-Forwarded-Port", Value: "8443"},
+	{Name: "X-Forwarded-Server", Value: "admin.example.com"}, {Name: "X-Original-Host", Value: "admin.example.com"}, {Name: "X-Original-Url", Value: "/admin/secret"},
+	{Name: "X-Rewrite-Url", Value: "/admin/secret"}, {Name: "X-Forwarded-Prefix", Value: "/admin"}, {Name: "X-Http-Method-Override", Value: "DELETE"},
+	{Name: "X-Real-Ip", Value: "198.51.100.99"}, {Name: "X-Forwarded-Client-Cert", Value: "Subject=\"CN=admin\""}}
 
 func (s scenario) String() string {
 	tp := "<unset>"
@@ -174,6 +184,11 @@ func genScenario(t *rapid.T) scenario {
 		}
 
 		s.Forwards = append(s.Forwards, fwd{Name: name, Values: vals})
+	}
+
+	for i, n := 0, rapid.IntRange(0, 2).Draw(t, "siblings"); i < n; i++ {
+		sib := rapid.SampledFrom(siblingHeaders).Draw(t, "sibling")
+		s.Forwards = append(s.Forwards, fwd{Name: sib.Name, Values: []string{sib.Value}, Sibling: true})
 	}
 
 	return s
@@ -350,6 +365,10 @@ func TestForwardedHeadersOnlyFromTrustedPeers(t *testing.T) {
 		vkit.S.Label(fmt.Sprintf("peer_trusted=%v", trusted))
 		vkit.S.Label("entry=" + string(s.Entry))
 		vkit.S.Label(fmt.Sprintf("n_forwarded_headers=%d", len(s.Forwards)))
+
+		for _, f := range s.Forwards {
+			vkit.S.LabelIf(f.Sibling, "with_undocumented_relatives_of_the_forwarded_headers")
+		}
 
 		// what the headers would make of the request if honoured
 		want := plain
